@@ -18,7 +18,7 @@ RULE = ("generated projects of 2..6 files: entry files with `out` statements, sh
         "alone. distinct = distinct (project, permutation); non-trivial = a batch of >= 2 files containing a failing "
         "file, a shared library or a file that is both built and imported.")
 
-KINDS = ["entry", "entry-imports-lib", "entry-imports-entry", "lib-no-out", "syntax-error", "type-error", "runtime-error",
+KINDS = ["entry", "entry-imports-lib", "entry-imports-local-lib", "entry-imports-local-lib", "entry-imports-entry", "lib-no-out", "syntax-error", "type-error", "runtime-error",
          "failing-out", "entry-yaml", "include-user"]
 
 
@@ -26,13 +26,23 @@ def gen_project(r):
     """-> (files: rel -> text, buildable: [rel], roles: rel -> kind)"""
     n = r.randint(2, 6)
     files = {"lib/shared.ucg": "let traceid = TRACE \"shared\";\nlet val = 7;\nlet mk = func (x) => {v = x, s = \"s\"};\n",
-             "lib/data.txt": "payload"}
+             "lib/data.txt": "payload",
+             # a DIFFERENT library under the same relative name one directory down: same import string, other file, other types
+             "sub/lib/shared.ucg": "let traceid = TRACE \"sub-shared\";\nlet val = \"seven\";\nlet mk = func (x, y) => [x, y];\nlet only_sub = true;\n",
+             "sub/lib/data.txt": "other payload"}
     roles = {}
     names = []
     for i in range(n):
         kind = r.choice(KINDS)
         d = r.choice(["", "sub"])
-        rel = posixpath.join(d, "b%d.ucg" % i) if d else "b%d.ucg" % i
+        base = "b%d.ucg" % i
+        if names and r.random() < 0.25:
+            # the same base name as an earlier file, in the other directory
+            cand = posixpath.basename(r.choice(names))
+            other = posixpath.join(d, cand) if d else cand
+            if other not in files:
+                base = cand
+        rel = posixpath.join(d, base) if d else base
         up = "../" if d else ""
         if kind == "entry":
             text = "let v = %d;\nout json {v = v, name = \"b%d\"};\n" % (i, i)
@@ -40,6 +50,10 @@ def gen_project(r):
             text = "let v = [%d, \"x\"];\nout yaml {v = v};\n" % i
         elif kind == "entry-imports-lib":
             text = "let l = import \"%slib/shared.ucg\";\nout json {v = l.val + %d, t = l.mk(%d)};\n" % (up, i, i)
+        elif kind == "entry-imports-local-lib":
+            # resolved against the importing file: lib/shared.ucg for a file in the root, sub/lib/shared.ucg for a file in sub
+            text = ("let l = import \"lib/shared.ucg\";\nlet s = include str \"lib/data.txt\";\n"
+                    "out json {v = l.val, n = %d, s = s, sub = \"only_sub\" in l};\n" % i)
         elif kind == "entry-imports-entry" and names:
             tgt = r.choice(names)
             rel_t = posixpath.relpath(tgt, d or ".")
@@ -241,7 +255,7 @@ def task(args):
                 allnames = sorted(k for k in files if k.endswith(".ucg"))
                 alone_all = alone_outcomes(tp, files, allnames)
                 res.case((json.dumps(files, sort_keys=True), "-r"), nontrivial=True)
-                judge_batch(tp, files, allnames, dict(roles, **{"lib/shared.ucg": "lib-no-out"}), allnames, alone_all, res, argv_extra=["-r", "."])
+                judge_batch(tp, files, allnames, dict(roles, **{"lib/shared.ucg": "lib-no-out", "sub/lib/shared.ucg": "lib-no-out"}), allnames, alone_all, res, argv_extra=["-r", "."])
         if c < 1 and idx < 2:
             res.sample({"files": files, "roles": roles})
     return res
